@@ -96,6 +96,9 @@ ALLOWED_SUBST = {
     "sort_unstable_by_key_m_self0": (r"self\.0\.sort_unstable_by_key\(", r"sort_unstable_by_key_m(&mut self.0, ",
                                      "`self.0.sort_unstable_by_key(f)` -> mirrored `sort_unstable_by_key_m(&mut self.0, f)` (assumed std meaning: a "
                                      "permutation, non-decreasing in the key; the key closure is unchanged)"),
+    "with_suggestion_dropped": (r"\n\s*\.with_suggestion\(\|\| \{\s*format!\((?:[^()]|\([^()]*\))*\)\s*\}\)", "",
+                                "`.with_suggestion(|| { format!(..) })` dropped (color_eyre::Section: assumed to map Ok to Ok and Err to Err, "
+                                "only attaching a help text to the error report)"),
     "phantom_fn": (r"PhantomData<fn\(\) -> (\w+)>", r"PhantomData<\1>",
                    "`PhantomData<fn() -> P>` -> `PhantomData<P>` (variance marker only; Verus has no fn-pointer types)"),
     "temp_guard_rotate": (r"(?m)^(\s*)state\.populations_mut\(\)\.rotate\(self\.n\);", r"\1let mut verif_tmp = state.populations_mut(); verif_tmp.rotate(self.n);",
